@@ -8,6 +8,7 @@ extra_check(): direct comparison of the implementation's outputs between routes,
 import importlib, os, random
 from .common import Case
 from . import c15r
+from . import c15s
 
 OWNERS = ['c02', 'c03', 'c04', 'c05', 'c06', 'c07', 'c08', 'c09', 'c10', 'c13', 'c14', 'c16', 'c17', 'c20']
 COQCHK = False
@@ -77,6 +78,7 @@ def _all_cases(tier, rng):
 def gen(tier, rng):
     cases = list(_all_cases(tier, rng))
     cases += c15r.gen(tier, rng)      # the glue routes (harness/src/ops/c15r.rs, coq/Model/Glue.v)
+    cases += c15s.gen(tier, rng)      # the glue routes around the Montgomery forms (harness/src/ops/c15s.rs, coq/Model/Glue2.v)
     return cases
 
 def extra_check(ctx):
